@@ -304,6 +304,15 @@ func (e *CEnv) val(t string, typ types.Type) CVal {
 	return CVal{T: t, S: e.g().sortOf(typ), Typ: typ}
 }
 
+// heapVal: a value read from the heap of the environment's state; what Go guarantees about stored values holds for it
+// (it refers only to objects allocated before that state).
+func (e *CEnv) heapVal(t string, typ types.Type) CVal {
+	if f := e.fv.wf(t, typ, e.st.now); f != "true" {
+		e.fv.c.AddFact("", f)
+	}
+	return e.val(t, typ)
+}
+
 func (e *CEnv) ev(x ast.Expr) CVal {
 	g := e.g()
 	switch x := x.(type) {
@@ -419,7 +428,7 @@ func (e *CEnv) ident(name string) CVal {
 	if p, ok := e.freePtrs[name]; ok {
 		// a captured variable denotes its current value
 		pt := types.Unalias(p.Typ).Underlying().(*types.Pointer)
-		return e.val(e.fv.loadAt(e.st, &Ptr{kind: pPlain, ref: p.T, elemT: pt.Elem()}, pt.Elem()), pt.Elem())
+		return e.heapVal(e.fv.loadAt(e.st, &Ptr{kind: pPlain, ref: p.T, elemT: pt.Elem()}, pt.Elem()), pt.Elem())
 	}
 	if v, ok := e.local(name); ok {
 		return v
@@ -547,7 +556,7 @@ func (e *CEnv) selector(x *ast.SelectorExpr) CVal {
 		if _, isPtr := types.Unalias(base.Typ).Underlying().(*types.Pointer); isPtr {
 			p := &Ptr{kind: pPlain, ref: base.T, elemT: stT}
 			fp := e.fv.fieldPtr(p, stT, f.Name(), f.Type())
-			return e.val(e.fv.loadAt(e.st, fp, f.Type()), f.Type())
+			return e.heapVal(e.fv.loadAt(e.st, fp, f.Type()), f.Type())
 		}
 		return e.val(app(g.structSel(stT, f.Name()), base.T), f.Type())
 	}
@@ -580,11 +589,11 @@ func (e *CEnv) index(x *ast.IndexExpr) CVal {
 	case *types.Slice:
 		i := e.coerce(idx, sBV64, types.Typ[types.Int])
 		h := e.fv.heapGet(e.st, e.g().compElem(t.Elem()))
-		return e.val(sel(sel(h, "(s!ref "+base.T+")"), "(bvadd (s!off "+base.T+") "+i.T+")"), t.Elem())
+		return e.heapVal(sel(sel(h, "(s!ref "+base.T+")"), "(bvadd (s!off "+base.T+") "+i.T+")"), t.Elem())
 	case *types.Map:
 		k := e.coerce(idx, e.g().sortOf(t.Key()), t.Key())
 		has := e.fv.mapHas(e.st, t, base.T, k.T)
-		return e.val(ite(has, e.fv.mapGet(e.st, t, base.T, k.T), e.g().zero(t.Elem())), t.Elem())
+		return e.heapVal(ite(has, e.fv.mapGet(e.st, t, base.T, k.T), e.g().zero(t.Elem())), t.Elem())
 	case *types.Basic:
 		i := e.coerce(idx, sBV64, types.Typ[types.Int])
 		return CVal{T: app("str!at", base.T, i.T), S: bvSort(8), Typ: types.Typ[types.Uint8]}
